@@ -684,6 +684,67 @@ def run(chk) -> None:
     forward, _ = bracketed_forwards_content(repo)
     r03b(chk, repo, g, Kinds(g), forward)
     r03a(chk, repo, g)
+    r03c(chk, repo)
+
+
+def r03c(chk, repo) -> None:
+    """The lexer emits template-block Indent/Dedent metas; a block tag that renders text gets a
+    Dedent without an Indent ({% call %} of a macro with output), so the lexed stream may sum to a
+    non-zero value.  Linter._lex_templated_file keeps those metas only if they balance.  The gate
+    must be a complete zero test: a one-sided comparison lets the other sign through and the tree
+    ends unbalanced (negative running balance after {% endcall %})."""
+    chk.rule("R03c", "the linter keeps the lexer's template-block indents only when their sum is zero: every test of that sum is a complete zero/non-zero test and one of them switches the indents off")
+    LINTER_ = "src/sqlfluff/core/linter/linter.py"
+    lf = repo.fn(LINTER_, "Linter._lex_templated_file")
+    cfg = cfg_of(lf)
+
+    def is_balance(e, at, depth=0) -> bool:
+        if isinstance(e, ast.Call) and call_name(e) == "sum" and e.args:
+            return any(isinstance(n, ast.Constant) and n.value == "indent_val" for n in ast.walk(e.args[0])) or any(
+                isinstance(n, ast.Attribute) and n.attr == "indent_val" for n in ast.walk(e.args[0])
+            )
+        if isinstance(e, ast.Name) and depth < 4:
+            os_ = origins(cfg, e, at)
+            return bool(os_) and all(o.kind == "expr" and not o.path and is_balance(o.expr, o.stmt, depth + 1) for o in os_)
+        return False
+
+    tests = []  # (If stmt, atom expr, complete?, asserts non-zero under pol True?)
+    for n in walk_local(lf):
+        if not isinstance(n, (ast.If, ast.While, ast.IfExp, ast.Assert)):
+            continue
+        test = n.test
+        for e in ast.walk(test):
+            if isinstance(e, ast.Compare) and len(e.ops) == 1 and (is_balance(e.left, cfg.stmt_of(n) or n) or is_balance(e.comparators[0], cfg.stmt_of(n) or n)):
+                other = e.comparators[0] if is_balance(e.left, cfg.stmt_of(n) or n) else e.left
+                complete = isinstance(e.ops[0], (ast.Eq, ast.NotEq)) and const(other) == 0
+                tests.append((n, e, complete))
+        if isinstance(test, ast.Name) and is_balance(test, cfg.stmt_of(n) or n):
+            tests.append((n, test, True))
+        if isinstance(test, ast.UnaryOp) and isinstance(test.op, ast.Not) and isinstance(test.operand, ast.Name) and is_balance(test.operand, cfg.stmt_of(n) or n):
+            tests.append((n, test, True))
+    chk.count("R03c.balance_tests", len(tests))
+    if not tests:
+        chk.fail("R03c", lf, "Linter._lex_templated_file no longer tests the sum of the lexed indent metas: unbalanced template indents reach the tree",
+                 detail="lexed indent balance is tested")
+        return
+    for n, e, complete in tests:
+        chk.require(
+            complete, "R03c", e,
+            f"the lexed indent balance is tested one-sidedly (`{short(e, 60)}`): a balance of the other sign passes the gate and the template indents "
+            "leave the tree unbalanced (e.g. a {% call %} block of a macro that renders text yields -1)",
+            detail="balance gate is a complete zero test",
+        )
+    # one of the tests switches the template indents off: an assignment of a false constant in its body to a name the filter tests
+    switches = []
+    for n, e, complete in tests:
+        if isinstance(n, ast.If):
+            for st in n.body + n.orelse:
+                for a in [st] + list(walk_local(st)):
+                    if isinstance(a, ast.Assign) and isinstance(a.value, ast.Constant) and a.value.value is False and all(isinstance(t, ast.Name) for t in a.targets):
+                        switches.append(a)
+    chk.require(bool(switches), "R03c", lf, "no branch of the balance test switches the template indents off", detail="unbalanced indents are switched off")
+
+
 
 
 # -- self-test variants -------------------------------------------------------------------------
@@ -696,6 +757,18 @@ TSQL = "src/sqlfluff/dialects/dialect_tsql.py"
 PG = "src/sqlfluff/dialects/dialect_postgres.py"
 
 VARIANTS = [
+    Variant(
+        "balance-gate-one-sided", "src/sqlfluff/core/linter/linter.py",
+        "            if indent_balance != 0:  # pragma: no cover\n",
+        "            if indent_balance > 0:  # pragma: no cover\n",
+        "R03c", "_lex_templated_file", "seeded C03-2: a stray Dedent from {% endcall %} passes the gate",
+    ),
+    Variant(
+        "quiet-balance-gate-truthiness", "src/sqlfluff/core/linter/linter.py",
+        "            if indent_balance != 0:  # pragma: no cover\n",
+        "            if indent_balance:  # pragma: no cover\n",
+        "QUIET", None, "non-zero test spelled as truthiness",
+    ),
     Variant(
         "ansi-where-dedent-deleted", ANSI,
         "        ImplicitIndent,\n        OptionallyBracketed(Ref(\"ExpressionSegment\")),\n        Dedent,\n    )\n\n\nclass OrderByClauseSegment",
